@@ -703,10 +703,16 @@ pub fn c09(tier: Tier) -> ! {
         for (label, init) in clone_pool.iter() {
             for seed in 0..tier.pick(6u64, 20u64) {
                 clones += 1;
-                let (ra, rc) = match init {
+                let (ra, rc) = match std::panic::catch_unwind(std::panic::AssertUnwindSafe(|| match init {
                     AnyState::Poly(x) => chain(x, seed),
                     AnyState::Mol(x) => chain(x, seed),
                     AnyState::Lj(x) => chain(x, seed),
+                })) {
+                    Ok(v) => v,
+                    Err(_) => {
+                        run.fail(None, &format!("{} (seed {}): optimising an optimised state or its copy panicked", label, seed), json!({"engine": "clone", "what": label, "seed": seed}));
+                        break;
+                    }
                 };
                 if ra != rc {
                     run.fail(None, &format!("{} (seed {}): a copy of an optimised state optimises to another result than the optimised state itself (same settings and seed)", label, seed), json!({"engine": "clone", "what": label, "seed": seed}));
@@ -736,11 +742,18 @@ pub fn c09(tier: Tier) -> ! {
                 let mut b = BuildOptimiser::default();
                 b.steps(600).inner_steps(5).kt_start(0.).kt_ratio(Some(0.)).max_step_size(0.05).seed(seed);
                 reuse += 1;
-                let (used, fresh) = match (&a, &bst) {
-                    (AnyState::Poly(x), AnyState::Poly(y)) => twice(x, y, &b),
-                    (AnyState::Mol(x), AnyState::Mol(y)) => twice(x, y, &b),
-                    (AnyState::Lj(x), AnyState::Lj(y)) => twice(x, y, &b),
-                    _ => continue,
+                let (used, fresh) = match std::panic::catch_unwind(std::panic::AssertUnwindSafe(|| match (&a, &bst) {
+                    (AnyState::Poly(x), AnyState::Poly(y)) => Some(twice(x, y, &b)),
+                    (AnyState::Mol(x), AnyState::Mol(y)) => Some(twice(x, y, &b)),
+                    (AnyState::Lj(x), AnyState::Lj(y)) => Some(twice(x, y, &b)),
+                    _ => None,
+                })) {
+                    Ok(Some(v)) => v,
+                    Ok(None) => continue,
+                    Err(_) => {
+                        run.fail(None, &format!("{} (seed {}): a run of a built optimiser panicked", label, seed), json!({"engine": "reuse", "what": label, "seed": seed}));
+                        break;
+                    }
                 };
                 if used != fresh {
                     run.fail(None, &format!("{} (seed {}): the second run of a built optimiser differs from the run of a fresh optimiser with the same settings: the result depends on what the object optimised before", label, seed), json!({"engine": "reuse", "what": label, "seed": seed}));
